@@ -182,6 +182,37 @@ def run(tier, seed, replay=None):
         if i % 8 == 0 and len(samples) < 5: samples.append(desc)
         bad = solverkit.intact(snaps, list(ops.values()))
         if bad: V.fail("%s (some backend) modified an operand: %s" % (which, bad[0].split(":")[0]), dict(desc, differences=bad))
+    # ---- warm start whose bases are blind to a part of the product (tight eps): operator I + 0.3 P with P block diagonal in every mode (indices 0..2 and
+    # 3..5 do not mix), first y_u = A x_u for x_u on the first block, then A (x_u + x_v) with initial = round(y_u): only the LAST supercore sees A x_v in
+    # the first sweep (through the kick of the left bases) - a convergence test that skips a supercore stops there. Both backends, error <= 30 eps.
+    rng_w = random.Random(seed + 83)
+    for j in range(2 if tier == "quick" else 12):
+        d_, n_, h_ = rng_w.choice([4, 5]), 6, 3; eps = 1e-10
+        sd = rng_w.randrange(1 << 30); torch.manual_seed(sd)
+        desc = {"routine": "fast_matvec", "family": "warm start blind to a block of the product", "d": d_, "n": n_, "eps": eps, "torch_seed": sd}
+        try:
+            RA = [1] + [2] * (d_ - 1) + [1]
+            def bd(r1, r2):
+                c = torch.zeros(r1, n_, n_, r2, dtype=dt); c[:, :h_, :h_, :] = torch.randn(r1, h_, h_, r2, dtype=dt); c[:, h_:, h_:, :] = torch.randn(r1, n_ - h_, n_ - h_, r2, dtype=dt); return c
+            def part(lo, hi):
+                cs = []
+                for i_ in range(d_):
+                    c = torch.zeros(RA[i_], n_, RA[i_ + 1], dtype=dt); c[:, lo:hi, :] = torch.randn(RA[i_], hi - lo, RA[i_ + 1], dtype=dt); cs.append(c)
+                return torchtt.TT(cs)
+            P_ = torchtt.TT([bd(RA[i_], RA[i_ + 1]) for i_ in range(d_)])
+            A = torchtt.eye([n_] * d_, dtype=dt) + P_ * (0.3 / P_.norm())
+            xu, xv = part(0, h_), part(h_, n_); x = xu + xv
+            ex = (A @ x).full(); nrm = float(ex.norm())
+            for name, flag in (("cpp", True), ("python", False)):
+                torch.manual_seed(sd + 1)
+                yu = A.fast_matvec(xu, eps=eps, use_cpp=flag).round(1e-12)
+                torch.manual_seed(sd + 2)
+                y = A.fast_matvec(x, eps=eps, initial=yu, use_cpp=flag)
+                err = float((y.full() - ex).norm())
+                if not (err <= 30.0 * eps * nrm + 1e-11 * nrm): V.fail("fast_matvec[%s]: error exceeds 30*eps from a warm start that is blind to a block of the product" % name, dict(desc, rel_err=err / nrm))
+            dist["fast_matvec warm start blind to a block"] = dist.get("fast_matvec warm start blind to a block", 0) + 1
+        except Exception as ex_:
+            V.fail("fast_matvec with a block-blind warm start raises %s" % type(ex_).__name__, dict(desc, exc=str(ex_)[:200]))
     # dispatch correspondence: which backend is entered, for every (use_cpp, order, preconditioner), against Model/CppRank.v (dispatch_solve, dispatch_matvec)
     import torchtt._dmrg as DMm, torchtt.solvers as SVm
     class _Proxy:
